@@ -68,6 +68,12 @@ def observe_items(doc, items, cipher_of):
             got = nav(doc, it["objid"], it["path"])
         except Exception as e:
             got = "exc:" + type(e).__name__
+        if it.get("kind") == "atom":                      # an indirect name / number: its value as PDF text
+            if isinstance(got, PSLiteral):
+                nm = got.name
+                got = b"/" + (nm if isinstance(nm, bytes) else nm.encode("utf-8"))
+            elif isinstance(got, (int, float)) and not isinstance(got, bool):
+                got = repr(got).encode()
         out.append(classify(got, it["plain"], cipher_of(it)))
     return out
 
